@@ -15,7 +15,6 @@ REVERSE = {   # name: fix commit subject prefix
     'C10-conelp-f6-unprotected': 'fix: conelp lets ArithmeticError from the KKT solves inside f6 escape',
     'C10-cpl-stale-statistics': 'fix: cpl reports stale statistics after restoring the saved state',
     'C10-cpl-linesearch-none': 'fix: cpl line search fails with TypeError when F refuses a trial point',
-    'C07-chol2-stale-singular-flag': "fix: kkt_chol2 keeps a stale 'singular' flag",
     'C07-chol2-structural-singular': 'fix: kkt_chol2 relies on potrf failing',
     'C13-delconstraint-gc': 'fix: op.delconstraint and the objective setter leave stale variables behind',
     'C16-negative-column-index': 'fix: spmatrix indexing S[slice, J] does not wrap negative entries',
@@ -35,6 +34,10 @@ REVERSE = {   # name: fix commit subject prefix
 }
 
 CUSTOM = {
+    # C07: the defect F5 as found (the fix line now has other neighbours, so the reverse patch no longer applies)
+    'C07-chol2-stale-singular-flag': [('src/python/misc.py',
+        "        if F['firstcall']:\n            F['singular'] = False\n            F['Hpattern'] = Hpattern\n",
+        "        if F['firstcall']:\n            F['Hpattern'] = Hpattern\n")],
     # C15: integer remainder with C semantics (the defect as found; the fix was followed by another on the same line)
     'C15-int-remainder-truncates': [('src/C/base.c',
         "    ((int_t *)dest)[i] = (r != 0 && ((r < 0) != (a.i < 0))) ? r + a.i : r;\n",
